@@ -18,7 +18,7 @@ import vt
 import j1939
 
 logging.disable(logging.CRITICAL)
-CLIENT, SERVER, INTR = 0xF9, 0xD4, 0xE0
+ADDRS = (0xF9, 0xD4, 0xE0)        # client, server, intruder (scenario field "addrs" overrides)
 
 
 def subs_names(ecu):
@@ -31,6 +31,7 @@ def subs_names(ecu):
 
 def run(sc):
     sim = vt.Sim(seed=sc.get("rseed", 0))
+    CLIENT, SERVER, INTR = sc.get("addrs", ADDRS)
     lat = sc.get("lat", [700, 900])
     nodes = {}
     mem = {}
@@ -191,7 +192,7 @@ def run(sc):
     sim.flush_abs()
     sim.log({"ev": "end", "node": "C"})
     return {"cfg": {"C": {"x": 0}}, "ev": sim.trace, "expect": {"x": 0}, "sec": bool(sc.get("seed_key")), "key_k": kk,
-            "client_k": sc.get("client_k", kk), "expect_idle": bool(sc.get("expect_idle", True)),
+            "client_k": sc.get("client_k", kk), "srv": SERVER, "expect_idle": bool(sc.get("expect_idle", True)),
             "self_intr": any(i.get("sa", INTR) == CLIENT for i in sc.get("intruder", [])), "meta": {"scenario": sc}}, sim
 
 
